@@ -101,6 +101,8 @@ def _install(world):
     def _super(ex, args, kwargs):
         fr = ex.frames[-1]
         s = fr.env.get("self")
+        if isinstance(s, VRec) and hasattr(s.model, "super_view"):
+            return s.model.super_view(ex, s)          # a model that says what its base class contributes
         if not isinstance(s, VRec) or "__data__" not in s.fields:
             raise Unsupported("super() outside a Schema method")
         return VSuper(s)
@@ -373,6 +375,52 @@ class FIELD_SETTER:
                "the parser's options do not collect errors (Schema builds its contexts with force_error=True)"]
 
 
+def _dep_field(pol):
+    return PF(on_error=Str(pol), type=Cls(name="ftype"), required=BOOL, no_input=BOOL, no_output=BOOL, mode=NONE, default=OBJ,
+              default_factory=NONE, final=BOOL, discriminator_map=NONE, property=NONE, dependants=Tup(STR, sk="set"),
+              field=Rec("Field", immutable=BOOL))
+
+
+_DEP = "field_of(self.__parser__, dep0(field))"
+
+
+@specfn("dep0")
+def _dep0(ex, fr, field):
+    """the one dependant name of the bounded case"""
+    return field.fields["dependants"].items[0]
+
+
+@specfn("field_of")
+def _field_of(ex, fr, parser, key):
+    """the record get_field(key) returns (its identity is a ghost function of parser and key)"""
+    f = z3.Function("field_record_of", V, S, V)
+    return VObj(f(ex.box(parser), key.t))
+
+
+@specfn("is_property_field")
+def _is_property_field(ex, fr, parser, key):
+    return VBool(_flag("property_truthy")(ex.box(parser), key.t))
+
+
+@contract(SC, "Schema.__field_setter__", props=["C07"], which="dependants")
+class FIELD_SETTER_DEPENDANTS:
+    """`properties that depend on a changed field have been recomputed`: BOUNDED to a field with exactly one dependant
+    name.  When that name is a declared @property field, __coerce_property__ has run for it on the FINAL state of the
+    instance, i.e. after the new value was stored (ghost marker `coerced_on_current_state`, established only by the
+    callee's contract and lost by any later store).  An excluded offender (nothing assigned) recomputes nothing."""
+    cases = {pol: dict(self=_schema(), value=OBJ, field=_dep_field(pol), setter=NONE) for pol in ("throw", "preserve")}
+    setup = staticmethod(_setter_setup)
+    requires = _PRE
+    returns = {"dependant_property_recomputed_after_the_store":
+               "implies(is_field_name(self.__parser__, dep0(field)) and is_property_field(self.__parser__, dep0(field)), "
+               "coerced_on_current_state(self, %s))" % _DEP}
+    only_raises = ["Exception"]
+    modifies = ["self.__data__", "self.__dict__"]
+    assumes = ["BOUNDED: exactly one dependant name", "the dependant's getter and parse are the interface contract of __coerce_property__ (trusted)"]
+
+
+FIELD_SETTER_DEPENDANTS.key = (SC, "Schema.__field_setter__#dependants")
+
 # ------------------------------------------------------------------------------------ __setitem__ for an unknown key
 
 def _additional_setup(ex, frame):
@@ -490,10 +538,15 @@ class GET_FIELD:
             return VNone()
         rec = ex.world.models["ParserField"].fresh(ex, "found_field!%d" % next(ex.counter),
                                                    **{"field": Rec("Field", immutable=BOOL), "required": BOOL, "no_input": BOOL,
-                                                      "mode": NONE, "final": BOOL, "default": OBJ, "default_factory": NONE})
+                                                      "mode": NONE, "final": BOOL, "default": OBJ, "default_factory": NONE,
+                                                      "property": OBJ})
         p, k = ex.box(fr.env["self"]), fr.env["key"].t
         for nm, getter in _FIELD_FLAGS.items():
             getter(rec, _flag(nm)(p, k))
+        # the record itself and whether it is an @property field are ghost functions of (parser, key) as well
+        ex.assume(rec.ref == z3.Function("field_record_of", V, S, V)(p, k))
+        pr = rec.fields["property"].t
+        ex.assume(z3.And(pr != sym.NONE, sym.truthy_f(pr)) == _flag("property_truthy")(p, k))
         return rec
     returns = {"none_iff_unknown": "(result is None) == (not is_field_name(self, key))"}
     only_raises = []
@@ -648,6 +701,18 @@ def _bulk():
 
 # ------------------------------------------------------------------------------------ __post_init__ (C10)
 
+_coerced = z3.Function("coerced_on_state", sym.ARR, sym.ARR, I, sym.ARR, sym.ARR, I, V, B)
+
+
+@specfn("coerced_on_current_state")
+def _coerced_on_current_state(ex, fr, inst, field):
+    """ghost marker: __coerce_property__(field) ran on exactly THIS state of the instance (both views).  Uninterpreted
+    over the contents of the two mappings, so any later store (new contents) leaves it unknown: only a call of
+    __coerce_property__ made AFTER the last store establishes it for the final state."""
+    d, a = inst.fields["__data__"], inst.fields["__dict__"]
+    return VBool(_coerced(d.keys, d.vals, d.n, a.keys, a.vals, a.n, ex.box(field)))
+
+
 @contract(SC, "Schema.__coerce_property__", props=["C07", "C10"])
 class COERCE_PROPERTY:
     """interface used by __post_init__ / the setters: computes one @property field and stores its parsed
@@ -655,7 +720,9 @@ class COERCE_PROPERTY:
     cases = {"any": dict(self=SCHEMA(), field=OBJ_NN, context=Rec("RuntimeContext"))}
     result = OBJ
     returns = {"errors_only_grow": "len(context.errors) >= old(len(context.errors))",
-               "tmp_untouched": "len(context.tmp_errors) == old(len(context.tmp_errors))"}
+               "tmp_untouched": "len(context.tmp_errors) == old(len(context.tmp_errors))",
+               "ghost_ran_on_the_state_it_leaves": "coerced_on_current_state(self, field)"}
+    definitional = ["ghost_ran_on_the_state_it_leaves"]
     only_raises = ["Exception"]
     modifies = ["context.errors", "self.__data__", "self.__dict__"]
     trusted = "interface only: the body calls the user's property getter and parse_output_value (contracted separately)"
